@@ -618,6 +618,24 @@ pub fn run(ctx: &Ctx) -> (Report, PropertyMeta) {
             cases.push(RouterCase { peers, ops });
         }
     }
+    // a long history: 120 rounds of traffic in both directions over 3 peers
+    {
+        let peers = vec![
+            PeerSpec { socket_type: "DEALER".into(), identity: None, lib: false },
+            PeerSpec { socket_type: "DEALER".into(), identity: Some("0102".into()), lib: false },
+            PeerSpec { socket_type: "REQ".into(), identity: Some("aa".into()), lib: false },
+        ];
+        let mut ops = vec![];
+        for i in 0..120usize {
+            ops.push(Op::PeerSend(i % 3, vec![i % 4]));
+            ops.push(Op::Deliver(i % 3, 0));
+            if i % 2 == 1 {
+                ops.push(Op::RecvAll);
+            }
+            ops.push(Op::Send(Target::Peer((i + 1) % 3), vec![i % 3]));
+        }
+        cases.push(RouterCase { peers, ops });
+    }
     let r = run_cases(ctx, "router", &cases, router_outcome);
     report.exhaustive_parts.push(format!("3 peer types x 6 identity lengths x raw/library peer, fixed history touching every target kind: {} cases", cases.len()));
     report.merge(r);
